@@ -1,8 +1,9 @@
 (* C01 — SQL outside SQLair expressions reaches the driver byte-for-byte.
    Property theorems only; proofs are in Proofs/. *)
+From Coq Require Import String.
 From SQLair.Base Require Import Bytes.
-From SQLair.Model Require Import Parser.
-From SQLair.Proofs Require Import ParserTiling.
+From SQLair.Model Require Import Reflect TypeInfo Parser Bind.
+From SQLair.Proofs Require Import ParserTiling ParserSigil SqlShape ExampleEnv.
 
 (* Every byte of an accepted query is in exactly one segment, in order: the
    segments' source texts concatenate to the query, for every byte string. *)
@@ -17,3 +18,150 @@ Example C01_tiling_applies :
   parse [97; 38; 36; 77; 46; 120]%N =
   Ok [Bypass [97; 38]%N; MemberIn [36; 77; 46; 120]%N {| tname := [77]%N; mname := [120]%N |}].
 Proof. vm_compute. reflexivity. Qed.
+
+(* The segmentation is canonical: a bypass chunk is never empty and the segment
+   that follows it, if any, is an expression (two bypass chunks are never
+   adjacent). *)
+Theorem C01_segments_canonical :
+  forall inp segs,
+    parse inp = Ok segs ->
+    (forall i c, nth_error segs i = Some (Bypass c) -> c <> []) /\
+    (forall i c e, nth_error segs i = Some (Bypass c) -> nth_error segs (S i) = Some e ->
+       is_bypass e = false).
+Proof. exact parse_canonical_nth. Qed.
+Print Assumptions C01_segments_canonical.
+
+(* Prepare turns the segments into typed expressions one for one, in order: a
+   bypass segment becomes a bypass with the same text, nothing else becomes a
+   bypass, and an expression segment becomes an input, insert or output. *)
+Theorem C01_one_texpr_per_segment :
+  forall env segs samples tbe,
+    bind_types env segs samples = BOk tbe ->
+    length tbe = length segs /\
+    (forall i c, nth_error segs i = Some (Bypass c) -> nth_error tbe i = Some (TBypass c)) /\
+    (forall i c, nth_error tbe i = Some (TBypass c) -> nth_error segs i = Some (Bypass c)) /\
+    (forall i e, nth_error segs i = Some e -> is_bypass e = false ->
+       exists te, nth_error tbe i = Some te /\
+         ((exists l, te = TInput l) \/ (exists cols, te = TInsert cols) \/
+          (exists ocs, te = TOutput ocs))).
+Proof. exact one_texpr_per_segment. Qed.
+Print Assumptions C01_one_texpr_per_segment.
+
+(* Adding a typed expression to the query only appends to the SQL written so
+   far; these appended tokens are the expansion of the expression.  A bypass
+   appends its text and nothing else. *)
+Theorem C01_add_to_query_appends :
+  forall env m q e q',
+    add_to_query env m q e = BOk q' ->
+    exists toks, q_sql q' = q_sql q ++ toks /\ (forall c, e = TBypass c -> toks = [TText c]).
+Proof. exact add_to_query_appends. Qed.
+Print Assumptions C01_add_to_query_appends.
+
+Theorem C01_render_app : forall a b, render (a ++ b) = render a ++ render b.
+Proof. exact render_app. Qed.
+Print Assumptions C01_render_app.
+
+(* The tokens of the primed query are the expansions of its typed expressions,
+   one group per expression, in order. *)
+Theorem C01_tokens_per_texpr :
+  forall env tbe args pq,
+    bind_inputs env tbe args = BOk pq ->
+    exists tokss, pq_toks pq = concat tokss /\
+      Forall2 (fun e toks => forall c, e = TBypass c -> toks = [TText c]) tbe tokss.
+Proof. exact bind_inputs_tokens. Qed.
+Print Assumptions C01_tokens_per_texpr.
+
+(* The SQL handed to the driver is the query (= the concatenation of the source
+   texts of its segments) with the source text of segment i replaced by the
+   expansion number i; the expansion of a bypass segment is its own text.  So
+   every byte outside a SQLair expression is sent exactly once, in order,
+   whatever precedes or follows an expression. *)
+Theorem C01_sql_shape :
+  forall env inp segs samples tbe args pq,
+    parse inp = Ok segs ->
+    bind_types env segs samples = BOk tbe ->
+    bind_inputs env tbe args = BOk pq ->
+    exists exps : list str,
+      length exps = length segs /\
+      pq_sql pq = concat exps /\
+      (forall i c, nth_error segs i = Some (Bypass c) -> nth_error exps i = Some c) /\
+      inp = concat (map raw_of segs).
+Proof. exact sql_shape. Qed.
+Print Assumptions C01_sql_shape.
+
+(* "SELECT &Person.* FROM t WHERE x&$M.id /* $M.z */": the text before, between
+   and after the two expressions (including the '&' glued to the second one and
+   the comment that looks like an expression) is sent as it is. *)
+Example C01_sql_shape_applies :
+  let inp := s "SELECT &Person.* FROM t WHERE x&$M.id /* $M.z */" in
+  exists segs tbe pq,
+    parse inp = Ok segs /\
+    bind_types ex_env segs [Some 2; Some 3] = BOk tbe /\
+    bind_inputs ex_env tbe [AVal 3 ex_map] = BOk pq /\
+    segs = [Bypass (s "SELECT "); Output (s "&Person.*") [] [ma "Person" "*"];
+            Bypass (s " FROM t WHERE x&"); MemberIn (s "$M.id") (ma "M" "id");
+            Bypass (s " /* $M.z */")] /\
+    pq_sql pq = concat [s "SELECT "; s "id AS _sqlair_0, name AS _sqlair_1";
+                        s " FROM t WHERE x&"; s "@sqlair_0"; s " /* $M.z */"] /\
+    pq_sql pq = s "SELECT id AS _sqlair_0, name AS _sqlair_1 FROM t WHERE x&@sqlair_0 /* $M.z */".
+Proof.
+  eexists. eexists. eexists.
+  split; [vm_compute; reflexivity|]. split; [vm_compute; reflexivity|].
+  split; [vm_compute; reflexivity|]. split; [vm_compute; reflexivity|].
+  split; vm_compute; reflexivity.
+Qed.
+
+(* A query in which the parser finds no SQLair expression is sent unchanged. *)
+Theorem C01_no_expression_unchanged :
+  forall env inp segs samples tbe args pq,
+    parse inp = Ok segs ->
+    bind_types env segs samples = BOk tbe ->
+    bind_inputs env tbe args = BOk pq ->
+    (forall e, In e segs -> exists c, e = Bypass c) ->
+    pq_sql pq = inp.
+Proof. exact no_expression_unchanged_in. Qed.
+Print Assumptions C01_no_expression_unchanged.
+
+(* Every SQLair expression the parser recognises contains a '$' or a '&'. *)
+Theorem C01_expr_has_sigil :
+  forall inp segs,
+    parse inp = Ok segs ->
+    forall e, In e segs -> is_bypass e = false ->
+      exists b, In b (raw_of e) /\ (b = 36%N \/ b = 38%N).
+Proof. exact expr_has_sigil_in. Qed.
+Print Assumptions C01_expr_has_sigil.
+
+(* Hence an accepted query without '$' and '&' is a single bypass segment
+   (no segment at all when it is empty) ... *)
+Theorem C01_no_sigil_no_expression :
+  forall inp segs,
+    (forall b, In b inp -> b <> 36%N /\ b <> 38%N) ->
+    parse inp = Ok segs ->
+    segs = [Bypass inp] \/ (inp = [] /\ segs = []).
+Proof. exact no_sigil_no_expression. Qed.
+Print Assumptions C01_no_sigil_no_expression.
+
+(* ... and is sent unchanged. *)
+Theorem C01_no_sigil_unchanged :
+  forall env inp segs samples tbe args pq,
+    (forall b, In b inp -> b <> 36%N /\ b <> 38%N) ->
+    parse inp = Ok segs ->
+    bind_types env segs samples = BOk tbe ->
+    bind_inputs env tbe args = BOk pq ->
+    pq_sql pq = inp.
+Proof. exact no_sigil_unchanged. Qed.
+Print Assumptions C01_no_sigil_unchanged.
+
+(* Non-vacuity: a plain statement with a literal and a comment is accepted,
+   prepared and primed, and is one bypass. *)
+Example C01_no_sigil_applies :
+  let inp := s "SELECT 'a*b', (x) FROM t -- done" in
+  exists tbe pq,
+    parse inp = Ok [Bypass inp] /\
+    bind_types ex_env [Bypass inp] [] = BOk tbe /\
+    bind_inputs ex_env tbe [] = BOk pq /\ pq_sql pq = inp.
+Proof.
+  eexists. eexists.
+  split; [vm_compute; reflexivity|]. split; [vm_compute; reflexivity|].
+  split; vm_compute; reflexivity.
+Qed.
